@@ -159,9 +159,9 @@ def overrun_columns(case):
     try:
         with np.errstate(all="ignore"):
             ref = ref_gmres(case["A"], B, X0, case["m"], case["tol"], np.complex128 if case["cplx"] else np.float64, True, solve=False)
-        return ref["overrun"]
+        return ref["overrun"], ref["lastsub"]
     except Exception:
-        return [True] * B.shape[1]
+        return [True] * B.shape[1], [1.0] * B.shape[1]
 
 
 def oracle(case, obs, flags):
@@ -175,7 +175,7 @@ def oracle(case, obs, flags):
     A, B = case["A"], case["B"]
     n, nc = B.shape
     m = case["m"]
-    early = overrun_columns(case)
+    early, lastsub = overrun_columns(case)
     if not obs.get("ok"):
         err = obs.get("err", "")
         if "LinAlgError" in err and ((flags.get("arnoldi_padding") and m > n) or (flags.get("arnoldi_breakdown_continues") and any(early))):
@@ -200,8 +200,8 @@ def oracle(case, obs, flags):
         xo, ro, dim = ls_optimum(A, b, x0, m)
         exhausted = ro <= 1e-9 * r0n
         info["exhausted"] += int(exhausted)
-        if flags.get("gmres_square_H") and not exhausted:
-            continue
+        if flags.get("gmres_square_H") and (not exhausted or lastsub[j] > 1e-10):
+            continue      # the dropped Hessenberg entry H[m, m-1] is not negligible (truncated run, or orthogonality lost)
         if flags.get("arnoldi_breakdown_continues") and early[j]:
             continue
         checked += 1
@@ -250,7 +250,7 @@ def ref_gmres(A, B, X0, m, tol, dtype, square_H=True, solve=True):
     Q = np.zeros((nc, n, m + 1), dtype=dtype)
     norm = np.sqrt(np.sum((R.conj() * R).real, axis=0))
     Q[:, :, 0] = (R / norm).T
-    cap, idx, margins = min(m, n), 0, []
+    cap, idx, margins, decisions = min(m, n), 0, [], []
     overrun = np.zeros(nc, dtype=bool)     # the loop went on after this column's own breakdown / convergence
     done = np.zeros(nc, dtype=bool)
     while True:
@@ -259,6 +259,7 @@ def ref_gmres(A, B, X0, m, tol, dtype, square_H=True, solve=True):
         if idx > 0:
             ref_ = tol * H[:, 1, 0].real
             margins.append(float(np.min(np.abs(norm - ref_) / np.maximum(np.abs(ref_), 1e-300))))
+            decisions.append((np.array(norm, dtype=np.longdouble), np.array(ref_, dtype=np.longdouble)))
             if not np.any(norm > ref_):
                 break
             done = done | ~(norm > ref_)
@@ -270,6 +271,7 @@ def ref_gmres(A, B, X0, m, tol, dtype, square_H=True, solve=True):
             new = new - h[:, [j]] * Q[:, :, j]
         norm = np.sqrt(np.sum((new.conj() * new).real, axis=-1))
         margins.append(float(np.min(np.abs(norm - tol / 2) / (tol / 2))))
+        decisions.append((np.array(norm, dtype=np.longdouble), np.full(nc, tol / 2, dtype=np.longdouble)))
         done = done | (norm < tol / 2)
         new = new / np.maximum(norm[:, None], tol / 2.)
         h[:, idx + 1] = norm
@@ -277,7 +279,9 @@ def ref_gmres(A, B, X0, m, tol, dtype, square_H=True, solve=True):
         Q[:, :, idx + 1] = new
         idx += 1
     if not solve:
-        return dict(steps=idx, overrun=[bool(v) for v in overrun])
+        hmax = np.max(np.abs(H.reshape(nc, -1)), axis=1) if m > 0 else np.ones(nc)
+        lastsub = np.abs(H[:, m, m - 1]) / np.where(hmax == 0, 1.0, hmax)      # the entry the square H drops
+        return dict(steps=idx, overrun=[bool(v) for v in overrun], lastsub=[float(v) for v in lastsub])
     Qm = Q[:, :, :-1]
     Hm = H[:, :-1, :] if square_H else H
     beta = np.sqrt(np.sum((R.conj() * R).real, axis=0))
@@ -288,11 +292,12 @@ def ref_gmres(A, B, X0, m, tol, dtype, square_H=True, solve=True):
         largest = np.max(np.abs(Hc), -1) if square_H else np.max(np.abs(Hc), 0)
         thresh = 10 * tol * np.max(largest)
         margins.append(float(np.min(np.abs(largest - thresh) / max(float(thresh), 1e-300))) if thresh > 0 else 1.0)
+        decisions.append((np.array(largest, dtype=np.longdouble), np.full(len(largest), thresh, dtype=np.longdouble)))
         pad = largest < thresh
         y = _ge_solve(HT @ Hc + np.diag(pad.astype(dtype)), HT[:, 0].copy()) * beta[c]
         y = np.where(pad, 0, y)
         out[:, c] = X0[:, c] + Qm[c] @ y
-    return dict(x=out, steps=idx, min_margin=min(margins) if margins else 1.0, overrun=[bool(v) for v in overrun])
+    return dict(x=out, steps=idx, min_margin=min(margins) if margins else 1.0, overrun=[bool(v) for v in overrun], decisions=decisions)
 
 
 def stability(case, square_H=True):
@@ -312,4 +317,12 @@ def stability(case, square_H=True):
     sc_ = np.max(np.abs(hi["x"]), axis=0)
     sc_ = np.where(sc_ == 0, 1.0, sc_)
     out["dev_x"] = float(np.max(np.max(np.abs(lo["x"] - hi["x"]), axis=0) / sc_))
+    # every compared quantity (clip, stopping test, padding mask) must be determined far better than its distance to the
+    # threshold: quantities that are rounding noise differ between the two precisions by their own size
+    if len(lo["decisions"]) != len(hi["decisions"]):
+        out["min_margin"] = 0.0
+    else:
+        for (vl, tl), (vh, th) in zip(lo["decisions"], hi["decisions"]):
+            if vl.shape != vh.shape or np.any(np.abs(vl - vh) > 1e-3 * np.abs(vl - tl)):
+                out["min_margin"] = 0.0
     return out
